@@ -212,7 +212,7 @@ pub fn run_c14(cfg: &Config) -> i32 {
     require_binaries(cfg);
     let tmp = scratch_dir(cfg, "c14");
     let budget = Duration::from_secs_f64(cfg.pick(30.0, 300.0) * cfg.scale);
-    let stats = parallel(cfg, "main", cfg.scaled(cfg.pick(40_000, 10_000_000)), budget, |idx, r, st| asp_case(cfg, &tmp, idx, r, st));
+    let stats = parallel(cfg, "main", cfg.scaled(cfg.pick(300_000, 10_000_000)), budget, |idx, r, st| asp_case(cfg, &tmp, idx, r, st));
     let _ = std::fs::remove_dir_all(&tmp);
     finish(
         cfg,
